@@ -590,6 +590,18 @@ func drawSnippet(t *rapid.T, name string, e genEnv) []Op {
 			b2 := rapid.IntRange(0, e.nBrows-1).Draw(t, "b2")
 			ops = append(ops, Op{K: "setcookie", B: b2, Src: "cookie", SA: a, SN: rapid.IntRange(0, 2).Draw(t, "oldn")}, Op{K: "newsess", B: b2}, Op{K: "visit", B: b2, S: "/p/none"})
 		}
+	case "appsignout":
+		// the application signs the browser out with the documented helpers - from a live session, or on the very request
+		// the remember middleware re-authenticated - and the browser then asks for a protected page
+		if !c.Has("auth") {
+			return nil
+		}
+		login.F = c.Has("remember") && chance(t, "rm", 70)
+		ops = append(ops, Op{K: "newsess", B: b}, login)
+		if login.F && chance(t, "cookieonly", 60) {
+			ops = append(ops, Op{K: "newsess", B: b})
+		}
+		ops = append(ops, Op{K: "visit", B: b, S: "/signout"}, Op{K: "visit", B: b, S: pick(t, "route", "/p/none", "/p/none", "/p/full", "/p/2fa")})
 	case "idlelogout":
 		// remembered, away for a long time, and the first thing the returning browser does is log out
 		if !c.Has("auth") || !c.Has("logout") {
